@@ -156,8 +156,8 @@ def _k_abstract(events, tgt):
       elif op == 'deliver':
         toks.append('td')
         where.add('body' if in_body else ('after' if body_over else 'before'))
-        if in_body:
-          body_over = True
+        # whatever it interrupted, the thread now unwinds into its handlers: a further delivery lands there
+        body_over = True
         in_body = False
       elif op == 'finish':
         toks.append('tf')
